@@ -15,21 +15,23 @@ How a fragment is translated (three steps, all of them meaning-preserving on the
 
 1. TRANSLATE to a small term language.  Statements by continuation duplication (`if` copies the rest of the
    block into both arms); local assignments are SUBSTITUTED (no `let` survives, so the names of locals, the order of
-   independent statements and the presence of temporaries leave no trace); `x is None` on a possibly-None value splits on
+   independent assignments and the presence of temporaries leave no trace); `x is None` on a possibly-None value splits on
    the parameter it comes from (flow typing); `raise X` becomes `.error <class of X>`; truthiness of ints as Python
    evaluates it (`0` is falsy).
 2. NORMALISE.  Conditional expressions are lifted out of arithmetic, tuples and comparisons; every test is decomposed
    into ATOMS in one fixed polarity — `a < b`, `a = b` (operands ordered), `b = true`, `p is None` — with
    `a <= b` read as `not b < a`, `a != b` as `not a = b`, chained comparisons, `not`, `and`, `or` as the propositional
-   structure over those atoms; the definition is then rebuilt as ONE decision tree that tests the atoms in a fixed global
-   order (parameters that may be None first, in parameter order; then the other atoms by their text), dropping a test
-   whose two arms are equal.  Operands of `+`, `*`, `min`, `max` are ordered.  The result is a canonical form modulo the
-   propositional structure of the code: reordering conjuncts/disjuncts, De Morgan, `if/else` exchanged under the negated
-   test, `elif` against nested `if`, a conditional expression against an `if` statement, early return against `else`,
-   flipped comparisons, commuted operands — all give the same text, character by character.  What is NOT identified:
-   anything that needs arithmetic (`-d - 1` against `-(d + 1)`, `min(a, b)` against an `if a > b` clamp, two exclusive
-   tests exchanged): those reach the theorems as a different term with the same meaning, and the interface lemmas
-   (the few lemmas that unfold `Gen.*`) are proved by case analysis + `omega`, not by rewriting a shape.
+   structure over those atoms; the definition is then rebuilt as ONE decision tree that tests the atoms in a fixed
+   order (parameters that may be None first, in parameter order; then the other atoms in the order of the source test
+   they first occur in and, inside one test, by length and text — class Norm), dropping a test whose two arms are equal.
+   Operands of `+`, `*`, `min`, `max` are ordered.  The result is a canonical form modulo the propositional structure of
+   each test: reordering conjuncts/disjuncts, De Morgan, `if/else` exchanged under the negated test, `elif` against
+   nested `if`, a conditional expression against an `if` statement, early return against `else`, flipped comparisons,
+   commuted operands — all give the same text, character by character.  What is NOT identified: anything that needs
+   arithmetic (`-d - 1` against `-(d + 1)`, `min(a, b)` against an `if a > b` clamp) and the order of independent or
+   mutually exclusive tests: those reach the theorems as a different term with the same meaning, and the interface
+   lemmas (lean/SparseV/Lemmas/Gen: the only lemmas that unfold `Gen.*`) are proved by case analysis + `omega`, not by
+   rewriting a shape.
 3. PRINT as nested `if … then … else` / `match … with | none | some`.
 
 Where text is compared with the source (the guard that selects a branch, the expressions a descriptor maps to a
